@@ -89,8 +89,9 @@ bool RSNHandshakeCapturer::do_insert(const handshake_map::key_type& key,
     handshake_map::iterator iter = handshakes_.find(key);
     if (iter != handshakes_.end()) {
         if (iter->second.size() != expected) {
-            // skip repeated
-            if (iter->second.size() != expected + 1) {
+            // skip repeated messages (we already have this one, and maybe later
+            // ones); only a message that arrives too early is out of order
+            if (iter->second.size() < expected) {
                 iter->second.clear();
             }
         }
